@@ -86,6 +86,11 @@ def apply_gate(g, exprs, labels, st, cache):
             cache[k] = build(e, labels)
         ops.append(cache[k])
     before = [snap(o) for o in ops]
+    for e, o in zip(exprs, ops):
+        if isinstance(o, dict) and any(l not in labels for k in o for l in k):
+            # an operand built by an inner gate application mentions variables that are not labels of the expression
+            return None, [("%s|foreign-variables|arity%d|%s" % (e[0], len(e) - 1, "label"),
+                           "C07 %s(...) = %s mentions variables other than the labels %r" % (e[0], short(dict(o), 120), labels))], [g] + list(exprs)
     tabs = [table_of(o, labels) for o in ops]
     want = ref_gate(g, tabs)
     r, _w = call(getattr(qv.sat, g), *ops)
@@ -218,7 +223,8 @@ def nary(ctx, nvars, scheme, forms, label):
 
 def run(ctx):
     runs = [(2, "int", ["label", "dict", "PUBO", "PCBO", "PUBOMatrix", "QUBO", "QUBOMatrix"], "2var-int"),
-            (2, "str", ["label", "dict", "PUBO", "PCBO", "QUBO"], "2var-str")]
+            (2, "str", ["label", "dict", "PUBO", "PCBO", "QUBO"], "2var-str"),
+            (2, "tuple", ["label", "dict", "PUBO", "PCBO"], "2var-tuple-labels")]
     if not ctx.quick:
         runs += [(3, "int", ["label", "dict", "PUBO", "PCBO", "PUBOMatrix"], "3var-int"),
                  (3, "rstr", ["label", "dict", "PUBO", "PCBO"], "3var-rstr")]
